@@ -707,6 +707,34 @@ def handlerCore (fn : String) : Option Handler :=
       oracle := fun a o => match run pEpa3 a with
         | some A => epa3Oracle A o
         | none => "skip bad-args" }
+  | "epa3c" => some {
+      model := fun a => run (do
+        let A ← pEpa3
+        let pts := A.pts.map fun (o1, o2) => CSOPoint3.new o1 o2
+        pure (match contactFromEpa3 A.pos12 (epa3Supp1 A.k1 A.h1) (epa3Supp2 A.k2 A.h2 A.pos12) 4096 pts with
+          | some (some c) => s!"some {fv3 c.point1} {fv3 c.point2} {fv3 c.normal1} {fv3 c.normal2} {ff c.dist}"
+          | some none => "none"
+          | none => "panic")) a
+      oracle := fun a o => match run pEpa3 a with
+        | some A =>
+          (match o with
+          | ["none"] => epa3Oracle A o
+          | "some" :: rest =>
+            withOut (do let p1 ← pov3; let p2 ← pov3; let n1 ← pov3; let n2 ← pov3; let d ← pfo; pure (p1, p2, n1, n2, d)) rest
+              fun (p1, p2, n1, n2, d) =>
+                let M := qiso3 A.pos12
+                let (P1, P2, N1, N2, D) := (q3 p1, q3 p2, q3 n1, q3 n2, q d)
+                let scale : Rat := 1 + vmag (q3 A.h1) + vmag (q3 A.h2) + vmag M.t
+                let P2w := M.act P2
+                let t9 : Rat := (1 / 1000000000) * scale
+                let p2w := A.pos12.act p2
+                let inner := epa3Oracle A [ff p1.x, ff p1.y, ff p1.z, ff p2w.x, ff p2w.y, ff p2w.z, ff n1.x, ff n1.y, ff n1.z]
+                if A.pts.length = 1 then inner
+                else if vmag ((M.rot N2).add N1) > t9 then "fail normal2-is-not-minus-normal1-in-the-frame-of-shape-1"
+                else if rabs (D - (P2w.sub P1).dot N1) > t9 then "fail dist-is-not-(p2-p1).n1"
+                else inner
+          | _ => "fail unparsable-output")
+        | none => "skip bad-args" }
   | _ => none
 
 /-- every C02 oracle starts with the totality clause (`fail non-finite-output …`, see `C03.guardFinite`) -/
